@@ -52,6 +52,26 @@ theorem prefix_head_ne {b e t : Str} (hb : b ≠ []) (he : e ≠ []) (hne : b.he
         apply hne
         simp [h1.1, h2.1]
 
+/-- two prefixes of the same text: one is a prefix of the other -/
+theorem prefix_of_common {b e t : Str} (h1 : isPrefix b t = true) (h2 : isPrefix e t = true) :
+    isPrefix e b = true ∨ isPrefix b e = true := by
+  induction t generalizing b e with
+  | nil =>
+    cases b with
+    | nil => right; simp [isPrefix]
+    | cons x b' => simp [isPrefix] at h1
+  | cons z t' ih =>
+    cases b with
+    | nil => right; simp [isPrefix]
+    | cons x b' =>
+      cases e with
+      | nil => left; simp [isPrefix]
+      | cons y e' =>
+        simp only [isPrefix, Bool.and_eq_true, beq_iff_eq] at h1 h2 ⊢
+        rcases ih h1.2 h2.2 with h | h
+        · left; exact ⟨by rw [h2.1, h1.1], h⟩
+        · right; exact ⟨by rw [h2.1, h1.1], h⟩
+
 theorem eraseRange_eq_ok {s t : Str} {a b : Int} (h : eraseRange s a b = .ok t) :
     0 ≤ a ∧ a ≤ b ∧ b ≤ (s.length : Int) ∧ t = s.take a.toNat ++ s.drop b.toNat := by
   unfold eraseRange at h
@@ -74,7 +94,7 @@ theorem range_eq_ok {s t : Str} {a b : Int} (h : range s a b = .ok t) :
 
 /-! ### removeComments -/
 
-theorem rmCommentsLoop_safe (b e : Str) (hb : b ≠ []) (he : e ≠ []) (hne : b.head? ≠ e.head?) :
+theorem rmCommentsLoop_safe (b e : Str) (hbe : isPrefix e b = false) (heb : isPrefix b e = false) :
     ∀ (fuel : Nat) (r : Str) (last : Nat), StrOk r → r.length < fuel →
       safe (rmCommentsLoop b e fuel r last) = true := by
   intro fuel
@@ -100,7 +120,9 @@ theorem rmCommentsLoop_safe (b e : Str) (hb : b ≠ []) (he : e ≠ []) (hne : b
           · exact h
           · have : last' = first := by omega
             subst this
-            exact (prefix_head_ne hb he hne (findFrom_prefix h1) (findFrom_prefix h2)).elim
+            rcases prefix_of_common (findFrom_prefix h1) (findFrom_prefix h2) with h | h
+            · rw [h] at hbe; cases hbe
+            · rw [h] at heb; cases heb
         simp only [h2]
         rw [toPtrdiff_eq (by omega), toPtrdiff_eq (by omega),
           eraseRange_ok (by omega) (by omega) (by omega)]
@@ -134,25 +156,36 @@ theorem rmCommentsLoop_alloc (b e : Str) :
 
 /-! ### the cleaning of one line -/
 
-theorem removeComments_safe_lem (s b e : Str) (hs : StrOk s) (hb : b ≠ []) (he : e ≠ [])
-    (hne : b.head? ≠ e.head?) : safe (removeComments s b e) = true :=
-  rmCommentsLoop_safe b e hb he hne _ _ _ hs (by omega)
+/-- for every pair of marks: refused (the library's exception) or the loop ends -/
+theorem removeComments_safe_lem (s b e : Str) (hs : StrOk s) : safe (removeComments s b e) = true := by
+  unfold removeComments
+  cases hbe : isPrefix e b with
+  | true => simp [safe]
+  | false =>
+    cases heb : isPrefix b e with
+    | true => simp [safe]
+    | false =>
+      simp only [Bool.or_self, Bool.false_eq_true, if_false]
+      exact rmCommentsLoop_safe b e hbe heb _ _ _ hs (by omega)
 
 theorem removeComments_alloc_lem (s b e r : Str) (h : removeComments s b e = .ok r) :
-    r.length ≤ s.length :=
-  rmCommentsLoop_alloc b e _ _ _ _ h
+    r.length ≤ s.length := by
+  unfold removeComments at h
+  split at h
+  · cases h
+  · exact rmCommentsLoop_alloc b e _ _ _ _ h
 
 theorem cleanLine_safe_lem (line : Str) (hs : StrOk line) : safe (cleanLine line) = true := by
   unfold cleanLine
-  refine safe_bind (removeComments_safe_lem _ _ _ hs (by decide) (by decide) (by decide)) ?_
+  refine safe_bind (removeComments_safe_lem _ _ _ hs) ?_
   intro a ha
   have h1 : StrOk a := by
     have := removeComments_alloc_lem _ _ _ _ ha; unfold StrOk at *; omega
-  refine safe_bind (removeComments_safe_lem _ _ _ h1 (by decide) (by decide) (by decide)) ?_
+  refine safe_bind (removeComments_safe_lem _ _ _ h1) ?_
   intro a2 ha2
   have h2 : StrOk a2 := by
     have := removeComments_alloc_lem _ _ _ _ ha2; unfold StrOk at *; omega
-  refine safe_bind (removeComments_safe_lem _ _ _ h2 (by decide) (by decide) (by decide)) ?_
+  refine safe_bind (removeComments_safe_lem _ _ _ h2) ?_
   intro a3 _
   rfl
 
